@@ -479,6 +479,10 @@ def run_case(p):
         return run_predform_case(p)
     if p.get('kind') == 'lazy':
         return run_lazy_case(p)
+    for k, f in (('forall', 'run_forall_case'), ('concat', 'run_concat_case'), ('rewrite', 'run_rewrite_case'),
+                 ('registry', 'run_registry_case'), ('infer', 'run_infer_case'), ('rdr', 'run_rdr_case')):
+        if p.get('kind') == k:
+            return globals()[f](p)
     if p.get('kind') == 'reuse':
         return run_reuse_case(p)
     if p.get('kind') == 'domain_subquery':
@@ -633,4 +637,295 @@ def run_lazy_case(p):
         return {'exception': repr(e), 'trace': traceback.format_exc(limit=4)}
     finally:
         O.enable_caching()
+    return None
+
+
+def run_forall_case(p):
+    """C10: for_all(u, c) yields exactly the bindings of the other variables for which c holds for every value of u"""
+    from entity_query_language import symbolic_mode, let, an, entity, set_of, for_all, and_
+    O.reset_registry()
+    (O.enable_caching if p.get('caching', True) else O.disable_caching)()
+    rng = random.Random(p['seed'])
+    du = O.make_domain(rng, rng.choice([1, 2, 3]))
+    dx = O.make_domain(rng, 3)
+    shape = rng.choice(['both', 'only_x', 'only_u', 'both'])
+    if shape == 'both':
+        c = ('cmp', rng.choice(['le', 'ge', 'ne', 'lt']), ('attr', 0, 'size'), ('attr', 1, 'size'))
+        if rng.random() < 0.4:
+            c = ('or', c, ('cmp', 'eq', ('attr', 0, 'name'), ('lit', rng.choice('abc'))))
+    elif shape == 'only_x':
+        c = O.gen_cond(rng, 1, 1, vocab=('cmp', 'name'), neg=False)
+    else:
+        c = ('cmp', rng.choice(['ge', 'le']), ('attr', 1, 'size'), ('lit', rng.choice([1, 2])))
+    extra = O.gen_cond(rng, 1, 1, vocab=('cmp', 'name'), neg=False) if rng.random() < 0.4 else None
+    try:
+        with symbolic_mode():
+            x = let(type_=O.Item, domain=dx)
+            u = let(type_=O.Item, domain=du)
+            fa = for_all(u, O.build(c, [x, u]))
+            cond = and_(fa, O.build(extra, [x])) if extra is not None else fa
+            q = an(entity(x, cond))
+        got = list(q.evaluate())
+        want = [a for a in dx if all(O.holds(c, {0: a, 1: b}) for b in du) and (extra is None or O.holds(extra, {0: a}))]
+    except Exception as e:  # noqa
+        O.enable_caching()
+        return {'shape': shape, 'exception': repr(e), 'trace': traceback.format_exc(limit=4), 'signature_kind': shape}
+    finally:
+        O.enable_caching()
+    if not O.same_list_by_identity(got, want):
+        return {'shape': shape, 'condition': repr(c), 'extra': repr(extra), 'universal_domain': repr(du), 'domain': repr(dx),
+                'got': repr(got), 'want': repr(want), 'signature_kind': shape}
+    return None
+
+
+def run_concat_case(p):
+    """C17: concatenate(e) is one value: all inner elements in order with multiplicity; membership and its negation"""
+    from entity_query_language import symbolic_mode, let, an, entity, concatenate, in_, not_, contains
+    O.reset_registry()
+    rng = random.Random(p['seed'])
+    dom = O.make_domain(rng, 3, falsy=p.get('falsy', False))
+    if rng.random() < 0.3:
+        dom[0].tags = []
+    probe = [O.Item('p', i) for i in range(4)]
+    neg = rng.random() < 0.5
+    try:
+        with symbolic_mode():
+            x = let(type_=O.Item, domain=dom)
+            allt = concatenate(x.tags)
+            q0 = an(entity(allt))
+        vals = list(q0.evaluate())
+        want0 = [t for o in dom for t in o.tags]
+        if len(vals) != 1 or list(vals[0]) != want0:
+            return {'what': 'concatenate value', 'got': repr(vals), 'want': repr([want0]), 'signature_kind': 'value'}
+        with symbolic_mode():
+            x = let(type_=O.Item, domain=dom)
+            y = let(type_=O.Item, domain=probe)
+            allt = concatenate(x.tags)
+            m = in_(y.size, allt) if rng.random() < 0.5 else contains(allt, y.size)
+            q = an(entity(y, not_(m) if neg else m))
+        got = list(q.evaluate())
+        want = [o for o in probe if (o.size in want0) != neg]
+    except Exception as e:  # noqa
+        return {'exception': repr(e), 'trace': traceback.format_exc(limit=4), 'signature_kind': 'exception'}
+    if not O.same_list_by_identity(got, want):
+        return {'what': 'membership', 'negated': neg, 'all': want0, 'got': repr(got), 'want': repr(want),
+                'signature_kind': 'membership' + ('-negated' if neg else '')}
+    return None
+
+
+def run_rewrite_case(p):
+    """C18: meaning-preserving rewrites leave the result set unchanged"""
+    from entity_query_language import symbolic_mode, let, an, entity, set_of, and_, or_, contains, in_
+    rng = random.Random(p['seed'])
+    which = rng.choice(['swap_and', 'swap_or', 'assoc', 'entity_args', 'mirror', 'contains_in', 'decl_order', 'permute'])
+
+    def results(variant):
+        O.reset_registry()
+        r = random.Random(p['seed'] + 1)
+        d0, d1 = O.make_domain(r, 3), O.make_domain(r, 3)
+        a = O.gen_cond(r, 2, 1, vocab=('cmp', 'name'), neg=False)
+        b = O.gen_cond(r, 2, 1, vocab=('cmp', 'name', 'contains'), neg=False)
+        c = O.gen_cond(r, 2, 1, vocab=('cmp',), neg=False)
+        lit = r.choice([1, 2, 3])
+        if which == 'permute' and variant:
+            d0 = list(reversed(d0))
+        with symbolic_mode():
+            if which == 'decl_order' and variant:
+                y = let(type_=O.Item, domain=d1)
+                x = let(type_=O.Item, domain=d0)
+            else:
+                x = let(type_=O.Item, domain=d0)
+                y = let(type_=O.Item, domain=d1)
+            xs = [x, y]
+            A, B, Cc = (lambda: O.build(a, xs)), (lambda: O.build(b, xs)), (lambda: O.build(c, xs))
+            if which == 'swap_and':
+                cond = and_(B(), A()) if variant else and_(A(), B())
+            elif which == 'swap_or':
+                cond = or_(B(), A()) if variant else or_(A(), B())
+            elif which == 'assoc':
+                cond = (A() & (B() & Cc())) if variant else and_(A(), B(), Cc())
+            elif which == 'entity_args':
+                cond = None
+            elif which == 'mirror':
+                cond = (lit < x.size) if variant else (x.size > lit)
+                cond = and_(cond, A())
+            elif which == 'contains_in':
+                cond = contains(x.tags, y.size) if variant else in_(y.size, x.tags)
+            else:
+                cond = and_(A(), B())
+            sel = [y, x] if (which == 'decl_order' and variant) else [x, y]
+            if which == 'entity_args':
+                q = an(set_of(sel, A(), B(), Cc())) if variant else an(set_of(sel, and_(A(), and_(B(), Cc()))))
+            else:
+                q = an(set_of(sel, cond))
+        rows = list(q.evaluate())
+        key0 = {id(o): i for i, o in enumerate(d0 if not (which == 'permute' and variant) else list(reversed(d0)))}
+        key1 = {id(o): i for i, o in enumerate(d1)}
+        return sorted((key0[id(r_[x])], key1[id(r_[y])]) for r_ in rows)
+    try:
+        r0, r1 = results(False), results(True)
+    except Exception as e:  # noqa
+        return {'rewrite': which, 'exception': repr(e), 'trace': traceback.format_exc(limit=4), 'signature_kind': which}
+    if set(r0) != set(r1):
+        return {'rewrite': which, 'rows_original': len(r0), 'rows_rewritten': len(r1), 'only_original': sorted(set(r0) - set(r1))[:4],
+                'only_rewritten': sorted(set(r1) - set(r0))[:4], 'signature_kind': which}
+    return None
+
+
+def run_registry_case(p):
+    """C14: a variable without a domain ranges over exactly the live registry (instances of the type and its subclasses
+    constructed outside symbolic mode so far), each once, whatever the history"""
+    from entity_query_language import symbolic_mode, rule_mode, let, an, entity
+    from entity_query_language.symbolic import Variable
+    O.reset_registry()
+    rng = random.Random(p['seed'])
+    live = {O.PBase: [], O.PSub: [], O.POther: []}
+    log = []
+
+    def expect(T):
+        return [o for K, objs in live.items() if issubclass(K, T) for o in objs]
+    try:
+        for step in range(p.get('steps', 8)):
+            op = rng.choice(['new_pos', 'new_kw', 'new_default', 'symbolic', 'query', 'query', 'clear'] if p.get('clear', True)
+                            else ['new_pos', 'new_kw', 'new_default', 'symbolic', 'query', 'query'])
+            K = rng.choice([O.PBase, O.PSub, O.POther])
+            log.append((op, K.__name__))
+            if op == 'new_pos':
+                live[K].append(K('n%d' % step, step))
+            elif op == 'new_kw':
+                live[K].append(K(name='k%d' % step, size=step))
+            elif op == 'new_default':
+                live[K].append(K('d%d' % step))
+            elif op == 'symbolic':
+                with (symbolic_mode() if rng.random() < 0.5 else rule_mode()):
+                    v = K(name='sym')
+                if isinstance(v, K):
+                    return {'history': log, 'what': 'symbolic construction returned a real instance'}
+            elif op == 'clear':
+                for c in Variable._cache_.values():
+                    c.clear()
+                Variable._cache_.clear()
+                for k in live:
+                    live[k] = []
+            else:
+                T = rng.choice([O.PBase, O.PSub])
+                with symbolic_mode():
+                    x = let(type_=T)
+                    q = an(entity(x))
+                got = list(q.evaluate())
+                want = expect(T)
+                if sorted(map(id, got)) != sorted(map(id, want)):
+                    return {'history': log, 'type': T.__name__, 'got': [(type(o).__name__, o.name) for o in got],
+                            'want': [(type(o).__name__, o.name) for o in want],
+                            'signature_kind': 'multiplicity' if set(map(id, got)) == set(map(id, want)) else 'membership'}
+    except Exception as e:  # noqa
+        return {'history': log, 'exception': repr(e), 'trace': traceback.format_exc(limit=4), 'signature_kind': 'exception'}
+    return None
+
+
+def run_infer_case(p):
+    """C11: infer(entity(T(f1=e1, f2=e2), conditions)) builds one new instance per satisfying assignment, from that
+    assignment, reusing the bound objects as field values"""
+    from entity_query_language import symbolic_mode, rule_mode, let, an, entity, infer, and_
+    O.reset_registry()
+    rng = random.Random(p['seed'])
+    d0, d1 = O.make_domain(rng, 3), O.make_domain(rng, 3)
+    cond = O.gen_cond(rng, 2, 1, vocab=('cmp', 'name'), neg=False)
+    if len(O.vars_of(cond)) < 2:
+        cond = ('and', cond, ('cmp', 'le', ('attr', 0, 'size'), ('attr', 1, 'size')))
+    use_attr = rng.random() < 0.5
+    try:
+        with rule_mode():
+            x = let(type_=O.Item, domain=d0)
+            y = let(type_=O.Item, domain=d1)
+            head = O.Built(a=x, b=(y.name if use_attr else y), tag='t')
+            q = infer(entity(head, O.build(cond, [x, y])))
+        got = list(q.evaluate())
+        want = [(a, (b.name if use_attr else b)) for a in d0 for b in d1 if O.holds(cond, {0: a, 1: b})]
+    except Exception as e:  # noqa
+        return {'exception': repr(e), 'trace': traceback.format_exc(limit=5), 'signature_kind': 'exception'}
+    bad = [g for g in got if not isinstance(g, O.Built)]
+    if bad:
+        return {'what': 'not instances of the head class', 'got': repr(bad[:2]), 'signature_kind': 'type'}
+    gk = sorted((id(g.a), id(g.b) if not use_attr else hash(g.b), g.tag) for g in got)
+    wk = sorted((id(a), id(b) if not use_attr else hash(b), 't') for a, b in want)
+    if gk != wk:
+        return {'condition': repr(cond), 'built': len(got), 'want': len(want), 'signature_kind': 'instances'}
+    if len(set(map(id, got))) != len(got):
+        return {'what': 'the same instance returned twice', 'signature_kind': 'identity'}
+    return None
+
+
+def run_rdr_case(p):
+    """C12: rule tree with Add conclusions, refinement and alternative: per match the ripple-down-rules conclusion"""
+    from entity_query_language import symbolic_mode, rule_mode, let, an, entity, Add, refinement, alternative
+    O.reset_registry()
+    rng = random.Random(p['seed'])
+    d0 = O.make_domain(rng, 4)
+    base = O.gen_cond(rng, 1, 1, vocab=('cmp',), neg=False)
+    c1 = O.gen_cond(rng, 1, 1, vocab=('cmp', 'name'), neg=False)
+    c2 = O.gen_cond(rng, 1, 1, vocab=('cmp', 'name'), neg=False)
+    c3 = O.gen_cond(rng, 1, 1, vocab=('cmp', 'name'), neg=False)
+    shape = rng.choice(['ref', 'alt', 'ref_ref', 'ref_alt', 'alt_ref', 'alt_alt'])
+
+    def reference(o):
+        e = {0: o}
+        B, C1, C2, C3 = O.holds(base, e), O.holds(c1, e), O.holds(c2, e), O.holds(c3, e)
+        if shape == 'ref':
+            return 'B' if (B and C1) else ('A' if B else None)
+        if shape == 'alt':
+            return 'A' if B else ('B' if C1 else None)
+        if shape == 'ref_ref':        # base / except c1 -> B / except c2 -> C
+            if not B:
+                return None
+            return ('C' if C2 else 'B') if C1 else 'A'
+        if shape == 'ref_alt':        # base, refinement c1 -> B, alternative (to the refinement) c2 -> C
+            if not B:
+                return None
+            return 'B' if C1 else ('C' if C2 else 'A')
+        if shape == 'alt_ref':        # base -> A ; alternative c1 -> B with refinement c2 -> C
+            if B:
+                return 'A'
+            return ('C' if C2 else 'B') if C1 else None
+        if shape == 'alt_alt':
+            return 'A' if B else ('B' if C1 else ('C' if C2 else None))
+    try:
+        x = let(type_=O.Item, domain=d0)
+        with symbolic_mode():
+            q = an(entity(v := let(type_=O.Built), O.build(base, [x])))
+        cls = {'A': O.Built, 'B': O.BuiltB, 'C': O.BuiltC, 'D': O.BuiltD}
+        with rule_mode(q):
+            Add(v, O.Built(a=x, tag='A'))
+            if shape == 'ref':
+                with refinement(O.build(c1, [x])):
+                    Add(v, O.BuiltB(a=x, tag='B'))
+            elif shape == 'alt':
+                with alternative(O.build(c1, [x])):
+                    Add(v, O.BuiltB(a=x, tag='B'))
+            elif shape == 'ref_ref':
+                with refinement(O.build(c1, [x])):
+                    Add(v, O.BuiltB(a=x, tag='B'))
+                    with refinement(O.build(c2, [x])):
+                        Add(v, O.BuiltC(a=x, tag='C'))
+            elif shape == 'ref_alt':
+                with refinement(O.build(c1, [x])):
+                    Add(v, O.BuiltB(a=x, tag='B'))
+                    with alternative(O.build(c2, [x])):
+                        Add(v, O.BuiltC(a=x, tag='C'))
+            elif shape == 'alt_ref':
+                with alternative(O.build(c1, [x])):
+                    Add(v, O.BuiltB(a=x, tag='B'))
+                    with refinement(O.build(c2, [x])):
+                        Add(v, O.BuiltC(a=x, tag='C'))
+            elif shape == 'alt_alt':
+                with alternative(O.build(c1, [x])):
+                    Add(v, O.BuiltB(a=x, tag='B'))
+                with alternative(O.build(c2, [x])):
+                    Add(v, O.BuiltC(a=x, tag='C'))
+        got = sorted((d0.index(g.a), g.tag) for g in q.evaluate())
+        want = sorted((i, reference(o)) for i, o in enumerate(d0) if reference(o) is not None)
+    except Exception as e:  # noqa
+        return {'shape': shape, 'exception': repr(e), 'trace': traceback.format_exc(limit=5), 'signature_kind': shape + ':exception'}
+    if got != want:
+        return {'shape': shape, 'base': repr(base), 'c1': repr(c1), 'c2': repr(c2), 'got': got, 'want': want, 'signature_kind': shape}
     return None
